@@ -171,6 +171,10 @@ pub trait Check: Send + Sync {
     fn isolated(&self) -> bool {
         false
     }
+    /// Total libFuzzer executions in the thorough tier (0 = no coverage-guided stage)
+    fn fuzz_runs(&self) -> u64 {
+        0
+    }
     /// Enumerated / auxiliary stages (exhaustive small domains, known-finding probes, corpus).
     /// Returns failures found (with an optional tape)
     fn extra(&self, _tier: Tier, _seed: u64, _acc: &mut Acc) -> Vec<(Failure, Option<Tape>)> {
@@ -278,6 +282,15 @@ pub fn run_caught(check: &dyn Check, tape: &Tape, want_sample: bool) -> Result<C
     }
 }
 
+/// classify a caught panic message of an auxiliary stage by where it was raised
+pub fn panic_failure(p: String, ctx: &str) -> Failure {
+    if p.contains("/repo/") || p.contains("redb-3.0.0") {
+        Failure::new(format!("panic:{}", normalize_sig(&p)), format!("{ctx}: panic inside redb during valid API use: {p}"))
+    } else {
+        Failure::new(format!("harness-panic:{}", normalize_sig(&p)), format!("{ctx}: panic in the harness itself (machinery bug, not a verdict): {p}"))
+    }
+}
+
 // ---------------------------------------------------------------------------------------------
 // known findings
 
@@ -315,6 +328,224 @@ impl Known {
 
 pub fn verif_root() -> String {
     std::env::var("VERIF_ROOT").unwrap_or_else(|_| "/verif".to_string())
+}
+
+// ---------------------------------------------------------------------------------------------
+// coverage-guided stage
+
+/// Delta-debugging over records, then per-byte zeroing, keeping the failure signature.
+pub fn minimise_tape(check: &dyn Check, tape: &Tape, sig: &str, max_runs: u32) -> Tape {
+    let mut best = tape.clone();
+    let mut runs = 0u32;
+    let mut still = |t: &Tape, runs: &mut u32| -> bool {
+        *runs += 1;
+        matches!(run_caught(check, t, false), Err(f) if f.signature == sig)
+    };
+    let mut chunk = (best.recs.len() / 2).max(1);
+    loop {
+        let mut i = 0;
+        let mut removed = false;
+        while i < best.recs.len() && runs < max_runs {
+            let mut cand = best.clone();
+            let end = (i + chunk).min(cand.recs.len());
+            cand.recs.drain(i..end);
+            if still(&cand, &mut runs) {
+                best = cand;
+                removed = true;
+            } else {
+                i += chunk;
+            }
+        }
+        if runs >= max_runs || (chunk == 1 && !removed) {
+            break;
+        }
+        if chunk > 1 {
+            chunk /= 2;
+        }
+    }
+    for i in 0..CFG_LEN {
+        if best.cfg[i] != 0 && runs < max_runs {
+            let mut cand = best.clone();
+            cand.cfg[i] = 0;
+            if still(&cand, &mut runs) {
+                best = cand;
+            }
+        }
+    }
+    for r in 0..best.recs.len() {
+        for b in 0..REC_LEN {
+            if best.recs[r][b] != 0 && runs < max_runs {
+                let mut cand = best.clone();
+                cand.recs[r][b] = 0;
+                if still(&cand, &mut runs) {
+                    best = cand;
+                }
+            }
+        }
+    }
+    best
+}
+
+/// Build /verif/fuzz (cargo-fuzz, nightly) against /repo's working tree and run the single `tape`
+/// target for this check with a fresh corpus directory. The semantic oracle is inside the target
+/// (same `run` as the random stage); a violation is reported through the replay file the target
+/// writes. A timeout/OOM inside libFuzzer is inconclusive (exit 2), never a violation.
+fn fuzz_stage(check: &dyn Check, seed: u64, plan: &Plan, corpus: &[(String, Tape)], acc: &mut Acc, failures: &mut Vec<(Failure, Option<Tape>)>) -> i32 {
+    use std::process::Command;
+    let root = verif_root();
+    let jobs = 16u64;
+    let runs_per_job = (check.fuzz_runs() / jobs).max(1);
+    let build = Command::new("cargo")
+        .args(["+nightly", "fuzz", "build", "--fuzz-dir", &format!("{root}/fuzz"), "tape"])
+        .current_dir(format!("{root}/harness"))
+        .env("RUSTFLAGS", "--cfg redb_verif")
+        .env("CARGO_NET_OFFLINE", "true")
+        .output();
+    let built = matches!(&build, Ok(o) if o.status.success());
+    if !built {
+        let why = match build {
+            Ok(o) => String::from_utf8_lossy(&o.stderr).lines().rev().take(12).collect::<Vec<_>>().join(" | "),
+            Err(e) => e.to_string(),
+        };
+        println!("FUZZ-STAGE-SKIPPED property={} the fuzz target did not build: {}", check.id(), why);
+        acc.extra.insert("fuzz".into(), json!({"status": "not run: cargo +nightly fuzz build failed", "detail": why}));
+        return 2;
+    }
+    let work = format!("{root}/scratch/fuzz-{}-{}", check.id(), std::process::id());
+    let cdir = format!("{work}/corpus");
+    let _ = std::fs::remove_dir_all(&work);
+    if std::fs::create_dir_all(&cdir).is_err() {
+        acc.extra.insert("fuzz".into(), json!({"status": "not run: cannot create scratch directory"}));
+        return 2;
+    }
+    // starting corpus: the committed regression tapes plus deterministic random tapes of full length
+    for (i, (_, t)) in corpus.iter().enumerate() {
+        let _ = std::fs::write(format!("{cdir}/reg-{i}"), t.to_bytes());
+    }
+    {
+        let mut rng = TestRng::from_seed(RngAlgorithm::ChaCha, &seed_bytes(seed, 0, 9));
+        use proptest::prelude::RngCore;
+        for i in 0..48 {
+            let n = CFG_LEN + REC_LEN * (1 + (i * plan.max_recs) / 48);
+            let mut b = vec![0u8; n];
+            rng.fill_bytes(&mut b);
+            let _ = std::fs::write(format!("{cdir}/rnd-{i}"), b);
+        }
+    }
+    let bin = format!("{root}/fuzz/target/x86_64-unknown-linux-gnu/release/tape");
+    let t0 = Instant::now();
+    let out = Command::new(&bin)
+        .arg(&cdir)
+        .args([
+            format!("-runs={runs_per_job}"),
+            format!("-seed={}", (seed % 0xffff_fffe) + 1),
+            "-len_control=0".to_string(),
+            format!("-max_len={}", CFG_LEN + REC_LEN * plan.max_recs),
+            format!("-jobs={jobs}"),
+            format!("-workers={jobs}"),
+            format!("-artifact_prefix={work}/art-"),
+            "-print_final_stats=1".to_string(),
+            "-timeout=120".to_string(),
+            "-rss_limit_mb=6000".to_string(),
+        ])
+        .current_dir(&work)
+        .env("VERIF_FUZZ_ID", check.id())
+        .env("VERIF_ROOT", &root)
+        .output();
+    let wall = t0.elapsed().as_secs_f64();
+    let mut execs = 0u64;
+    let mut cov = 0u64;
+    let mut corpus_final = 0u64;
+    let mut violation_lines = vec![];
+    let mut harness_err = false;
+    let mut inconclusive = vec![];
+    let mut deadly = vec![];
+    if let Ok(rd) = std::fs::read_dir(&work) {
+        for e in rd.flatten() {
+            let name = e.file_name().to_string_lossy().to_string();
+            if !(name.starts_with("fuzz-") && name.ends_with(".log")) {
+                continue;
+            }
+            let text = String::from_utf8_lossy(&std::fs::read(e.path()).unwrap_or_default()).to_string();
+            let mut job_violation = false;
+            for l in text.lines() {
+                if let Some(r) = l.strip_prefix("stat::number_of_executed_units:") {
+                    execs += r.trim().parse::<u64>().unwrap_or(0);
+                }
+                if l.starts_with('#') && l.contains(" cov: ") {
+                    let f: Vec<&str> = l.split_whitespace().collect();
+                    if let Some(i) = f.iter().position(|x| *x == "cov:") {
+                        cov = cov.max(f.get(i + 1).and_then(|x| x.parse().ok()).unwrap_or(0));
+                    }
+                    if let Some(i) = f.iter().position(|x| *x == "corp:") {
+                        corpus_final = corpus_final.max(f.get(i + 1).and_then(|x| x.split('/').next()).and_then(|x| x.parse().ok()).unwrap_or(0));
+                    }
+                }
+                if l.starts_with("VIOLATION property=") || (l.starts_with("  ") && l.contains(": ") && !job_violation && false) {
+                    violation_lines.push(l.to_string());
+                    job_violation = true;
+                }
+                if l.starts_with("HARNESS-ERROR") {
+                    harness_err = true;
+                    inconclusive.push(l.chars().take(300).collect::<String>());
+                }
+                if l.contains("ERROR: libFuzzer: timeout") || l.contains("ERROR: libFuzzer: out-of-memory") {
+                    inconclusive.push(l.to_string());
+                }
+                if l.contains("ERROR: libFuzzer: deadly signal") && !job_violation {
+                    deadly.push(name.clone());
+                }
+            }
+        }
+    }
+    let status_ok = matches!(&out, Ok(o) if o.status.success());
+    // a violation found by the fuzzer: re-run the saved tape in this process to get the failure record
+    let mut found = 0;
+    for l in &violation_lines {
+        if let Some(path) = l.split("replay=").nth(1) {
+            if let Ok(text) = std::fs::read_to_string(path.trim()) {
+                if let Ok(v) = serde_json::from_str::<Value>(&text) {
+                    if let Some(t) = v.get("tape").and_then(|t| t.as_str()).and_then(Tape::from_hex) {
+                        match run_caught(check, &t, false) {
+                            Err(f0) => {
+                                let t = minimise_tape(check, &t, &f0.signature, 3000);
+                                let mut f = run_caught(check, &t, false).err().unwrap_or(f0);
+                                f.msg = format!("[found by libFuzzer, minimised by record/byte deletion] {}", f.msg);
+                                failures.push((f, Some(t)));
+                            }
+                            Ok(_) => failures.push((Failure::new("unstable", format!("libFuzzer reported a violation that does not reproduce in-process: {l}")), Some(t))),
+                        }
+                        found += 1;
+                    }
+                }
+            }
+        }
+    }
+    // the process died without the target's own VIOLATION line (abort inside the code under test)
+    if found == 0 && !deadly.is_empty() {
+        if let Ok(rd) = std::fs::read_dir(&work) {
+            for e in rd.flatten() {
+                let name = e.file_name().to_string_lossy().to_string();
+                if name.starts_with("art-crash-") {
+                    let t = Tape::from_bytes(&std::fs::read(e.path()).unwrap_or_default());
+                    failures.push((Failure::new("abort-under-fuzzer", "the process was killed by a signal (abort) while running this tape under libFuzzer"), Some(t)));
+                    break;
+                }
+            }
+        }
+    }
+    acc.extra.insert(
+        "fuzz".into(),
+        json!({"engine": "libFuzzer (cargo-fuzz 0.13, nightly), one target, oracle in target", "executions": execs, "jobs": jobs, "runs_per_job": runs_per_job,
+            "edges_covered_max_over_jobs": cov, "corpus_units_max_over_jobs": corpus_final, "starting_corpus": corpus.len() + 48, "wall_s": wall,
+            "violations_reported": violation_lines.len(), "inconclusive": inconclusive, "exit_ok": status_ok}),
+    );
+    let _ = std::fs::remove_dir_all(&work);
+    if harness_err || (!inconclusive.is_empty() && failures.is_empty()) {
+        println!("FUZZ-STAGE-INCONCLUSIVE property={} {}", check.id(), inconclusive.join(" | "));
+        return 2;
+    }
+    0
 }
 
 // ---------------------------------------------------------------------------------------------
@@ -749,9 +980,15 @@ pub fn run_check(check: &dyn Check, tier: Tier, seed: u64) -> i32 {
     acc.merge(wacc);
     failures.extend(wfails);
 
+    // stage 3 (thorough only): coverage-guided search over the same tapes (libFuzzer)
+    let mut stage_exit = 0;
+    if tier == Tier::Thorough && failures.is_empty() && check.fuzz_runs() > 0 && std::env::var("VERIF_NO_FUZZ").is_err() {
+        stage_exit = fuzz_stage(check, seed, &plan, &corpus, &mut acc, &mut failures);
+    }
+
     // verdict
     let mut violations = 0;
-    let mut exit = 0;
+    let mut exit = stage_exit;
     let mut known_lines = HashSet::new();
     for (f, tape) in &failures {
         if let Some(what) = known.is_known(check.id(), &f.signature) {
